@@ -48,6 +48,10 @@ type ProbeImpl struct {
 	// forced scheduling decisions) before it answers.
 	ValidatorYields int
 	lent            probe.LentProxy
+	lents           []probe.LentProxy
+	// RelayByID makes relay choose among all the objects lent so far: the
+	// one whose identifier is the token's nonce.
+	RelayByID bool
 }
 
 func (p *ProbeImpl) Activate(a bus.Activation, h probe.ProbeSignalHelper) error {
@@ -120,6 +124,7 @@ func (p *ProbeImpl) Lend(q probe.LentProxy) error {
 	p.Env.Executed("lend", p.Obj, "", "")
 	p.mu.Lock()
 	p.lent = q
+	p.lents = append(p.lents, q)
 	p.mu.Unlock()
 	return nil
 }
@@ -128,9 +133,23 @@ func (p *ProbeImpl) Lend(q probe.LentProxy) error {
 func (p *ProbeImpl) Relay(tok probe.Token) (probe.Token, error) {
 	p.mu.Lock()
 	q := p.lent
+	if p.RelayByID {
+		// the token names the lent object by its identifier
+		q = nil
+		for _, x := range p.lents {
+			if x.Proxy().ObjectID() == uint32(tok.Nonce) {
+				q = x
+				break
+			}
+		}
+	}
 	p.mu.Unlock()
 	if q == nil {
-		return tok, fmt.Errorf("nothing was lent to object %d", p.Obj)
+		var ids []uint32
+		for _, x := range p.lents {
+			ids = append(ids, x.Proxy().ObjectID())
+		}
+		return tok, fmt.Errorf("nothing was lent to object %d (asked for %d, lent: %v)", p.Obj, uint32(tok.Nonce), ids)
 	}
 	p.Env.Executed("relay", p.Obj, "", "")
 	return q.Echo(tok)
@@ -150,10 +169,61 @@ func (p *ProbeImpl) OnLevelChange(v int32) error {
 type LentImpl struct {
 	Env *core.Env
 	Obj int
+	// Nest, when set, is added to the same service from inside Activate
+	// (an object that creates a child while it is being activated).
+	Nest *LentImpl
+	// ActivateYields forced scheduling decisions are taken inside Activate.
+	ActivateYields int
+
+	// Act is the activation the object received.
+	Act bus.Activation
+
+	mu      sync.Mutex
+	actID   uint32 // identifier received at activation
+	actSeq  int64
+	terms   int
+	NestID  uint32
+	NestErr error
 }
 
-func (l *LentImpl) Activate(a bus.Activation, h probe.LentSignalHelper) error { return nil }
-func (l *LentImpl) OnTerminate()                                              {}
+func (l *LentImpl) Activate(a bus.Activation, h probe.LentSignalHelper) error {
+	l.mu.Lock()
+	l.Act = a
+	l.actID = a.ObjectID
+	l.actSeq = zzsim.Seq()
+	l.mu.Unlock()
+	for i := 0; i < l.ActivateYields; i++ {
+		zzsim.Yield("h.activate")
+	}
+	if l.Nest != nil && a.Service != nil {
+		id, err := a.Service.Add(probe.LentObject(l.Nest))
+		l.mu.Lock()
+		l.NestID, l.NestErr = id, err
+		l.mu.Unlock()
+	}
+	return nil
+}
+
+func (l *LentImpl) OnTerminate() {
+	l.mu.Lock()
+	l.terms++
+	l.mu.Unlock()
+	zzsim.Event("lent object %d terminated", l.Obj)
+}
+
+// Activated returns the identifier the object was activated with.
+func (l *LentImpl) Activated() uint32 {
+	l.mu.Lock()
+	defer l.mu.Unlock()
+	return l.actID
+}
+
+// Terminated returns how often the termination hook ran.
+func (l *LentImpl) Terminated() int {
+	l.mu.Lock()
+	defer l.mu.Unlock()
+	return l.terms
+}
 
 func (l *LentImpl) Echo(tok probe.Token) (probe.Token, error) {
 	n := l.Env.Executed("echo", l.Obj, tokOf(tok).Key(), shortText(tok.Text))
